@@ -5,7 +5,7 @@
     livesql/marshal.go); proofs: Sql/CodecProofs.v.  [env_laws e] are the guarantees of strconv, time
     and mysql.parseDateTime the codec relies on (parse after format is the identity). *)
 From Coq Require Import List ZArith String.
-From Thunder Require Import Sql.TimeText Sql.TimeTextProofs Sql.Codec Sql.CodecProofs Sql.CodecTime.
+From Thunder Require Import Sql.TimeText Sql.TimeTextProofs Sql.Codec Sql.CodecProofs Sql.CodecTime Sql.FieldTables Sql.Validate Sql.ValidateProofs.
 Import ListNotations.
 Open Scope Z_scope.
 
@@ -182,6 +182,24 @@ Theorem time_text_out_of_range_refuted :
 Proof. exact CodecTime.time_text_out_of_range_refuted. Qed.
 Print Assumptions time_text_out_of_range_refuted.
 
+(** * Registration and dispatch tables
+
+    Every descriptor the round-trip theorems range over ([desc_ok]) is one sqlgen registers: the model of
+    buildDescriptor's tag check and of Descriptor.ValidateSQLType (Valuer.Value on the zero value gives a
+    driver value that Scanner.Scan takes back) accepts it.  [register_ok] is compared with
+    sqlgen.RegisterType on every (type, pointer, tag) combination on every run. *)
+Theorem round_trip_descriptors_are_registrable :
+  forall e d, desc_ok d = true -> register_ok e d = true /\ tag_modelled d = true.
+Proof. exact desc_ok_registers. Qed.
+Print Assumptions round_trip_descriptors_are_registrable.
+
+(** The kind lists, tag names and protobuf kind tables extracted from internal/fields/sql.go and
+    livesql/marshal.go (snapshot Gen/FieldKinds.v; re-extracted on every run) are what the model's functions
+    do on sample values. *)
+Theorem dispatch_tables_match_the_model : field_tables_check snapshot = true.
+Proof. exact field_tables_agree. Qed.
+Print Assumptions dispatch_tables_match_the_model.
+
 (** Non-vacuity: the laws are satisfiable, and a row with a negative int8 from the binlog, a NULL
     pointer, an implicit NULL, a json-tagged integer read as text and a uint64 on an INT UNSIGNED
     column meets [row_repr]. *)
@@ -256,3 +274,12 @@ Proof.
   eapply (rr_cons _ _ _ _ _ _ _ _ (ColInt 8 false) PBinlog); try reflexivity.
   constructor.
 Qed.
+
+(** Registration is not vacuous: a string column with a binary tag, a struct without methods for its tag and an
+    implicitnull pointer are refused, as sqlgen refuses them. *)
+Example registration_refusals :
+  register_ok toy_env (mk_desc BStr false TBinary) = false /\
+  register_ok toy_env (mk_desc (BCustom CBin) false TNone) = false /\
+  register_ok toy_env (mk_desc (BInt 64) true TImplicitNull) = false /\
+  register_ok toy_env (mk_desc (BCustom CTri) true TNone) = true.
+Proof. vm_compute. repeat split; reflexivity. Qed.
